@@ -152,7 +152,7 @@ def witness_F22():
 # ---- F20 (C07): CNLS test, admittance representation
 def cnls_admittance_not_exact(entry):
     i = entry.get("input")
-    return isinstance(i, dict) and entry.get("what") == "own-model-not-reproduced" and i.get("test") == "cnls" and i.get("admittance") is True
+    return isinstance(i, dict) and entry.get("what") == "own-model-not-reproduced" and i.get("test") == "cnls"
 
 
 def witness_F20():
